@@ -37,10 +37,11 @@ def gen_cases(tier, seed):
         cyc = rng.random() < 0.5
         fam = CYC_FAM if cyc else DAG_FAM
         node = rng.random() < 0.3
+        ex = rng.random() < 0.65          # noisy weights in the other cases (MinErrorFlow then has something to correct; flow decompositions reject them)
         if node:
-            base = I.cyc_node_base(rng, wt="int", max_edges=7) if cyc else I.dag_node_base(rng, wt="int", max_edges=8)
+            base = I.cyc_node_base(rng, wt="int", max_edges=7, exact=ex) if cyc else I.dag_node_base(rng, wt="int", max_edges=8, exact=ex)
         else:
-            base = I.cyc_edge_base(rng, wt="int", max_edges=8) if cyc else I.dag_edge_base(rng, wt="int", max_edges=9)
+            base = I.cyc_edge_base(rng, wt="int", max_edges=8, exact=ex) if cyc else I.dag_edge_base(rng, wt="int", max_edges=9, exact=ex)
         steps = [rng.choice(fam + ["MinErrorFlow"]) for _ in range(rng.randint(2, 4))]
         dflt = (i % 8 == 0)
         queued = cyc and not dflt and i % 3 == 1
@@ -50,7 +51,7 @@ def gen_cases(tier, seed):
             steps[1] = rng.choice([c_ for c_ in fam + ["MinErrorFlow", "MinErrorFlow"] if c_ != steps[0]])
         c = {"cyc": cyc, "spec": I.spec_of(base), "steps": steps, "planted": len(base["planted"]), "oo": dict(rng.choice(OO_POOL)), "dflt": dflt,
              "group": "dflt" if dflt else "t1", "ignore": [], "cons": [], "scale": [], "superset": None, "share_ignore": rng.random() < 0.5, "node": node,
-             "probe_dict": (not node) and cyc and rng.random() < 0.4, "pending": rng.random() < 0.35}
+             "probe_dict": (not node) and cyc and rng.random() < 0.4, "pending": rng.random() < 0.35, "eps": rng.choice([None, None, 0.1, 0.25, 1.0])}
         if queued:
             c["pending"] = True; c["oo"] = {"optimize_with_safe_sequences_fix_via_bounds": True}
         if rng.random() < 0.4 and base["planted"]:
@@ -90,6 +91,8 @@ def build_args(cls, case, shared, k):
             kw["elements_to_ignore"] = shared["ign"]
         if case["scale"]:
             kw["error_scaling"] = shared["scale"]
+        if case.get("eps") is not None:
+            kw["few_flow_values_epsilon"] = case["eps"]          # two-phase solve (the repeated solve() must go through both phases again)
         return kw
     if "Cover" not in cls:
         kw["flow_attr"] = "flow"; kw["weight_type"] = int
@@ -223,6 +226,41 @@ def _run_case(case):
         obs["c18.arg_objects_compared"] += 1; obs["c18.probe_dict_checks"] += 1
         if d != before:
             viol.append({"sig": "C18/caller-object-mutated/max_edge_repetition_dict/AbstractWalkModelDiGraph", "msg": f"caller-owned max_edge_repetition_dict changed: {[(e, before[e], d[e]) for e in d if d[e] != before[e]][:4]}; {desc}"})
+    # the documented extension point: a minimal user subclass of the abstract base class that relies on the default arguments
+    # (docs/abstract-path-model.md); building and solving it must not change the base class's default argument objects
+    try:
+        if case["cyc"]:
+            import flowpaths.abstractwalkmodeldigraph as awm
+            class _UserWalkModel(awm.AbstractWalkModelDiGraph):
+                def __init__(self, G):
+                    super().__init__(G=G, k=1, max_edge_repetition=2)
+                    self.create_solver_and_walks()
+                def get_solution(self): return None
+                def get_lowerbound_k(self): return 1
+                def is_valid_solution(self): return True
+                def get_objective_value(self): return None
+            um = M.safe_call(_UserWalkModel, fp.stDiGraph(shared["G"]))
+        else:
+            import flowpaths.abstractpathmodeldag as apm
+            class _UserPathModel(apm.AbstractPathModelDAG):
+                def __init__(self, G):
+                    super().__init__(G=G, k=1)
+                    self.create_solver_and_paths()
+                def get_solution(self): return None
+                def get_lowerbound_k(self): return 1
+                def is_valid_solution(self): return True
+                def get_objective_value(self): return None
+            um = M.safe_call(_UserPathModel, fp.stDAG(shared["G"]))
+        if um[0] == "ok":
+            M.safe_call(um[1].solve)
+            obs["c18.user_subclass_probes"] += 1
+        d3 = defaults_snapshot()
+        for cname in d3:
+            if d3[cname] != dsnap[cname]:
+                viol.append({"sig": f"C18/mutable-default-argument-changed/{cname}/user-subclass", "msg": f"{cname}.__init__ defaults changed by a minimal user subclass built with default arguments: {str(dsnap[cname])[:150]} -> {str(d3[cname])[:250]}"})
+                dsnap[cname] = d3[cname]
+    except Exception:
+        obs["c18.user_subclass_probe_failed"] += 1
     if pending is not None:
         pcls, pm = pending
         s_ = M.safe_call(pm.solve)
